@@ -195,13 +195,12 @@ def _check_approx(ctx, cases, label):
         else:
             verdict = 'ok'
             agree = (m[0] == 'error' and m[1] == r[1])
-        if not agree:
-            ctx.disagreements += 1
         if verdict == 'inside-only':
             ctx.count(label + ':judge-inside-only')
             best = simplest_between(x - e, x + e)
             verdict = 'ok' if best.denominator == r[1].denominator else 'not-minimal(denominator %d exists)' % best.denominator
         if verdict != 'ok':
+            ctx.disagreements += 1
             ctx.violation('approximate_rational(%s, %s) returned %s: %s' % (x, e, r[1], verdict),
                           {'kind': 'approx', 'x': str(x), 'e': str(e), 'impl': str(r), 'model': str(m),
                            'judge': verdict})
@@ -212,7 +211,7 @@ def _check_approx(ctx, cases, label):
             ctx.violation('approximate_rational(%s, %s) accepted a non-positive tolerance' % (x, e),
                           {'kind': 'approx', 'x': str(x), 'e': str(e), 'impl': str(r)})
         elif not agree:
-            ctx.extra.setdefault('model_drift', []).append({'x': str(x), 'e': str(e), 'impl': str(r), 'model': str(m)})
+            ctx.drift('approximate_rational vs QP.C14.approximateRationalPair', line, str(r), str(m))
 
 
 def _ops_cases(ctx, n):
